@@ -66,6 +66,8 @@ func init() {
 			ruleRawIdFilter(c, "C04.RAWID")
 			// a refusal (restrict) raised by a constraint of a child store reaches the caller
 			ruleErrorLookedAtOnEveryPath(c, "C04.LOOKEDAT", c.prodFuncs("boltz"))
+			// the cascade terminates on cyclic references
+			ruleCascadeReentry(c, "C04.CASCADECYCLE")
 			// the cascade re-positions its id cursor with Seek(Current()) after every delete: Seek must really
 			// re-seek the underlying bolt cursor
 			ruleSeekAbsolute(c, "C04.RESEEK")
